@@ -193,6 +193,39 @@ func (match4Engine) Run(ctx *fw.Ctx, cs any) {
 		p.Gi = pkt.IP4("10.9.9.9")
 		datas = append(datas, p.Bytes())
 	}
+	// (1c) the header's sname and file fields in use: as the strings they are meant for, and - with an Option
+	// Overload option (52) saying so - as further option space (RFC 2131 4.1). What the codec hands to the
+	// server is the options field; whatever sits in those header fields, the table is decided on that.
+	for _, t := range [][]byte{nil, {1}, {3}, {4}, {7}, {8}, {2}, {5}} {
+		for _, ov := range []byte{0, 1, 2, 3} {
+			for _, content := range [][]byte{{53, 1, 1, 255}, {53, 1, 3, 255}, {61, 3, 1, 0xaa, 0xbb, 255}, {82, 4, 1, 2, 'i', 'f', 255}, {53, 1, 7, 61, 2, 9, 9, 255}, []byte("pxelinux.0"), {255}, {53, 1, 1}} {
+				xid++
+				p := pkt.Request4(xid, []byte{2, 0, 0, 0, 5, byte(xid)}, 0)
+				if t != nil {
+					p.Opts = append(p.Opts, pkt.O4(53, t...))
+				}
+				if ov != 0 {
+					p.Opts = append(p.Opts, pkt.O4(52, ov))
+				}
+				if rng.Intn(2) == 0 {
+					p.Opts = append(p.Opts, pkt.O4(61, 1, 2, 0, 0, 0, 5, byte(xid)))
+				}
+				if ov&1 != 0 || ov == 0 {
+					copy(p.File[:], content)
+				}
+				if ov&2 != 0 || (ov == 0 && rng.Intn(2) == 0) {
+					copy(p.Sname[:], content)
+				}
+				switch rng.Intn(3) {
+				case 0:
+					p.Gi = pkt.IP4("10.9.9.9")
+				case 1:
+					p.Flags = 0x8000
+				}
+				datas = append(datas, p.Bytes())
+			}
+		}
+	}
 	// (2) generated and mutated datagrams
 	for i := 0; i < c.NRand; i++ {
 		xid++
